@@ -68,7 +68,7 @@ impl GlobalIndexCatalogCache {
         if let Ok(mut guard) = self.inner.lock() {
             let keys: Vec<_> = guard
                 .iter()
-                .filter(|(key, _)| key.path.ends_with(segment_label))
+                .filter(|(key, _)| key_in_segment(&key.path, segment_label))
                 .map(|(key, _)| key.clone())
                 .collect();
             for key in keys {
@@ -77,7 +77,7 @@ impl GlobalIndexCatalogCache {
         }
 
         if let Ok(mut inflight) = self.inflight.lock() {
-            inflight.retain(|key, _| !key.path.ends_with(segment_label));
+            inflight.retain(|key, _| !key_in_segment(&key.path, segment_label));
         }
     }
 
@@ -161,3 +161,11 @@ impl GlobalIndexCatalogCache {
 
 pub static GLOBAL_INDEX_CATALOG_CACHE: Lazy<GlobalIndexCatalogCache> =
     Lazy::new(|| GlobalIndexCatalogCache::new(2048));
+
+/// Cache keys are absolute *file* paths (`<shard>/<segment>/<uid>.<ext>`): a key belongs to a
+/// segment when its parent directory is named after the segment label.
+fn key_in_segment(path: &std::path::Path, segment_label: &str) -> bool {
+    path.parent()
+        .map(|dir| dir.ends_with(segment_label))
+        .unwrap_or(false)
+}
